@@ -318,6 +318,26 @@ func countTrue(a *[1024]bool) int {
 	return n
 }
 
+// ownerOf: goroutine t is parked before a Wait (pWait) on a placeholder; the goroutine that owns that placeholder (it
+// is between its insertion and its Done) and the value its operation computes.
+func ownerOf(prog program, s mstate, t int) (v, owner int, ok bool) {
+	if t < 0 || t >= len(prog) || s.thr[t].pc != pWait || int(s.thr[t].ip) >= len(prog[t]) {
+		return 0, 0, false
+	}
+	p := s.thr[t].p
+	for u := range prog {
+		th := s.thr[u]
+		if u == t || int(th.ip) >= len(prog[u]) || th.p != p {
+			continue
+		}
+		switch th.pc {
+		case pCall, pWrite, pInner, pDone:
+			return int(prog[u][th.ip].V), u, true
+		}
+	}
+	return 0, 0, false
+}
+
 func isFinal(prog program, s mstate) bool {
 	for t := range prog {
 		if int(s.thr[t].ip) < len(prog[t]) {
